@@ -92,7 +92,7 @@ func zzReapply(f *Fingerprinter, rec []byte, name string) (*UConn, error, error)
 	return uc, nil, uc.BuildHandshakeState()
 }
 
-//verif:harness C06 parrot_fingerprint_reapply unwind=4000 instrs=600000000 paths=80000 wall=900
+//verif:harness C06 parrot_fingerprint_reapply unwind=4000 instrs=600000000 paths=300000 wall=3600
 //verif:stub (*math/rand.Rand).Shuffle zzStubShuffle
 //verif:expect end
 //verif:doc For the hello of every predefined parrot (thorough; every fifth parrot in the quick tier) with all random bytes symbolic: FingerprintClientHello (flags AllowBluntMimicry / AlwaysAddPadding symbolic) then ApplyPreset + BuildHandshakeState with a different server name of the same length yields a hello of the same shape (C06 normaliser) and the same total length; fingerprinting the regenerated hello again yields the same shape (idempotence).
@@ -257,6 +257,59 @@ func zzC06CaptureWithArbitraryValues() {
 	verifAssertClass(why2 == "", "regenerated-hello-parses-strictly", "arbitrary-values:"+why2)
 	if why2 == "" {
 		zzShapeEqual(&h1, &h2, capt, raw2, "arbitrary-values", true)
+	}
+	verifReach("end")
+}
+
+//verif:harness C06 randomized_fingerprint_reapply unwind=4000 instrs=600000000 paths=400000 wall=1500
+//verif:stub utls.newPRNGWithSeed zzStubNewPRNGWithSeed
+//verif:stub utls.newPRNGWithSaltedSeed zzStubNewPRNGWithSaltedSeed
+//verif:stub (*utls.prng).FlipWeightedCoin zzStubFlipWeightedCoin
+//verif:stub (*utls.prng).Intn zzStubPrngIntn
+//verif:stub (*utls.prng).Perm zzStubPrngPerm
+//verif:stub (*math/rand.Rand).Shuffle zzStubShuffleIdentity
+//verif:expect end
+//verif:assume the seeded PRNG stream is arbitrary (every coin an SMT variable), permutations are the identity (C09's stubs)
+//verif:doc The hello of a randomized ClientHelloID (three variants, symbolic seed, default weights, every structural coin arbitrary; the eight coins that only add an independent extension or algorithm tied to one bit) fingerprinted and re-applied with a server name of the same length yields a hello of the same shape and the same total length (C06 normaliser).
+func zzC06RandomizedFingerprintReapply() {
+	zzPrngs, zzPrngStreams = nil, nil
+	var seed PRNGSeed
+	copy(seed[:], verifBytes("seed", 32))
+	w := DefaultWeights
+	other := zzW("other-weights", false)
+	w.SigAndHashAlgos_Append_ECDSAWithSHA1 = other
+	w.SigAndHashAlgos_Append_ECDSAWithP521AndSHA512 = other
+	w.SigAndHashAlgos_Append_PSSWithSHA384_PSSWithSHA512 = other
+	w.CurveIDs_Append_CurveP521 = other
+	w.Extensions_Append_Status = other
+	w.Extensions_Append_SCT = other
+	w.Extensions_Append_Reneg = other
+	w.Extensions_Append_EMS = other
+	w.CipherSuites_Remove_RandomCiphers = 0
+	clients := []string{helloRandomized, helloRandomizedALPN, helloRandomizedNoALPN}
+	id := ClientHelloID{Client: clients[verifChoice("variant", 3)], Version: helloAutoVers, Seed: &seed, Weights: &w}
+	cfg := zzConfig("example.com")
+	uc := UClient(&zzRecConn{}, cfg, id)
+	if err := uc.BuildHandshakeState(); err != nil {
+		verifFail("randomized-hello-builds", "")
+		return
+	}
+	raw1 := append([]byte{}, uc.HandshakeState.Hello.Raw...)
+	h1, why := zzRefParseClientHello(raw1)
+	verifAssertClass(why == "", "source-hello-parses", "randomized:"+why)
+	if why != "" {
+		return
+	}
+	uc2, ferr, berr := zzReapply(&Fingerprinter{}, zzRecord(raw1), "foobar1.org")
+	verifAssertClass(ferr == nil && berr == nil, "fingerprint-and-reapply-succeed", "randomized")
+	if ferr != nil || berr != nil {
+		return
+	}
+	raw2 := uc2.HandshakeState.Hello.Raw
+	h2, why2 := zzRefParseClientHello(raw2)
+	verifAssertClass(why2 == "", "regenerated-hello-parses-strictly", "randomized:"+why2)
+	if why2 == "" {
+		zzShapeEqual(&h1, &h2, raw1, raw2, "randomized", true)
 	}
 	verifReach("end")
 }
